@@ -640,3 +640,17 @@ Theorem C01_host_without_anchor_refuted : exists f rq r,
   ~ covered seahash (probes seahash (C03_Model.rq_src rq) (lower_str (C02_Model.r_url r))) f.
 Proof. exact host_without_anchor_refuted. Qed.
 Print Assumptions C01_host_without_anchor_refuted.
+
+(* the batch theorems C01_result_* above as ONE equality of result records, unsupported scheme included *)
+From Adb Require Import Engine_History_Model Engine_History_Proofs.
+Theorem C01_whole_answer_record :
+  forall (h : str -> N) (matches : rule -> bool) (pr : list N),
+  In 0 pr ->
+  forall (supported : bool) (url : str) (st : C13_Model.storage) (mr fc : bool) 
+    (L : list rule) (T : list str),
+  id_inj L ->
+  TG h matches pr L ->
+  engine_check matches pr supported url st mr fc (tags_with_set h (blocker_new h L) T) =
+  spec_result matches supported url st mr fc L T.
+Proof. exact batch_engine_check. Qed.
+Print Assumptions C01_whole_answer_record.
